@@ -1154,7 +1154,16 @@ func (ex *Exec) execLoop(lp *loopParts) {
 			if lp.bindIdx != nil {
 				lp.bindIdx(sc)
 			}
+			nerr := len(ex.errs)
 			v, _ := ex.specEval(sc, ls.lc.Decreases.Expr)
+			if len(ex.errs) > nerr {
+				// the variant names something the code no longer has: as good as no variant
+				for _, e := range ex.errs[nerr:] {
+					ex.warnings["contract clause not evaluable on this code: "+e] = true
+				}
+				ex.errs = ex.errs[:nerr]
+				return nil
+			}
 			return v.T
 		}
 		if lp.autoVar != nil {
